@@ -11,6 +11,7 @@ from common import *  # noqa
 import project as P
 import routercheck as R
 import servers
+import handlermodel
 import c12 as C12
 
 PROP = "C05"
@@ -131,7 +132,7 @@ def main():
     # ---- (2) compiled routers: values at the boundaries of the declared type, presence / absence
     chosen = [C12.clean_project(projects[-1])] + [C12.clean_project(p) for p in projects[:(1 if a.tier == "quick" else 6)]]
     h = servers.build_servers(PROP + "_srv", chosen)
-    reqs, rmeta = [], []
+    reqs, rmeta, hrows = [], [], []
     for k, p in enumerate(chosen):
         for c in p["controllers"]:
             for m in c["methods"]:
@@ -164,6 +165,9 @@ def main():
                                 continue
                             reqs.append(dict(rq, project=k, engine=e, script={}))
                             rmeta.append((k, c["name"], m["name"], e, pi, prm, kind, v))
+                            hrows.append({"key": [k, c["name"], m["name"], pi, kind, v], "project": k, "controller": c["name"],
+                                          "method": m["name"], "label": "valid", "tags": {"values": values}, "request": rq,
+                                          "script": {}, "engine": e})
     outs = h.run(reqs) if reqs else []
     rows = []
     for i, ((k, cn, mn, e, pi, prm, kind, v), o) in enumerate(zip(rmeta, outs)):
@@ -210,6 +214,10 @@ def main():
                        "claim": "a representable value of the declared type reaches the method unchanged; a missing required "
                                 "parameter or a value that does not convert is answered 422 without invoking the method; "
                                 "an absent optional (pointer) parameter is passed as nil"})
+    # ---- (3) whole requests against the engine-independent handler model (Handler.handle)
+    for r_, o_ in zip(hrows, outs):
+        r_["raw"] = o_
+    hstats = handlermodel.handler_leg(res, PROP, chosen, hrows)
     h.cleanup()
     res.coverage["obligations"] = res.coverage.get("obligations", 0) + len(meta)
     res.coverage["discharged"] = res.coverage.get("discharged", 0) + len([1 for m_ in meta if m_[2] == "ok"]) - len(failing)
@@ -231,7 +239,7 @@ def main():
         "traces_validated_against_impl": len(reqs) - len(bad),
         "input_distribution": {"projects": len(projects), "routes_files": len(meta), "served_projects": len(chosen),
                                "requests_x_engines": len(reqs), "per_type_location": dist},
-        "translation_failures": len(failing), "value_failures": len(bad),
+        "translation_failures": len(failing), "value_failures": len(bad), "handler_model": hstats,
     })
     res.assumptions += ["floats (strconv.ParseFloat) and go-playground validator tags other than `required` are not modelled: "
                         "parameters carrying another rule are only required not to be invoked with a wrong value",
